@@ -67,6 +67,9 @@ static bool cycle_check(int desc, const Config &g, int b, std::string &err) {
     std::vector<uint8_t> data((size_t)g.k * ref::word_bytes(g) * 2 + (b % 3));
     uint64_t sd = 55 + b;
     for (auto &x : data) x = (uint8_t)splitmix64(sd);
+    int mn = liberasurecode_get_minimum_encode_size(desc), al = liberasurecode_get_aligned_data_size(desc, data.size()), fz = liberasurecode_get_fragment_size(desc, (int)data.size());
+    int unit = g.k * ref::word_bytes(g);
+    if (mn != unit || al != (int)ref::aligned_size(g, data.size()) || fz != al / g.k) { err = "size queries on a live descriptor answer " + std::to_string(mn) + "/" + std::to_string(al) + "/" + std::to_string(fz) + " (expected " + std::to_string(unit) + "/" + std::to_string(ref::aligned_size(g, data.size())) + "/...)"; return false; }
     Stripe s = encode(desc, g, data);
     if (s.rc != 0) { err = "encode failed rc=" + std::to_string(s.rc); return false; }
     auto want = ref::serialize_stripe(g, data.data(), data.size(), liberasurecode_get_version(), false);
@@ -235,7 +238,7 @@ static void sweep_sched_range(int wl_from, int wl_to) {
     stats().extra["preemption_bound"] = 2;
 }
 static void sweep_sched() { sweep_sched_range(0, (int)opts().geti("workloads", opts().tier == "thorough" ? 4 : 2)); sweep_sched_range(4, opts().tier == "thorough" ? 6 : 5); }
-static void sweep_sched_c08() { sweep_sched_range(4, 6); }
+static void sweep_sched_c08() { sweep_sched_range(4, 6); sweep_sched_range(0, 1); sweep_sched_range(2, 3); }      // + two threads creating, querying, using and destroying their own instances
 static Case gen_sched() {
     Case c;
     int nt = coin(2, 3) ? 2 : 3;
